@@ -7,6 +7,9 @@
 (* of the group's rows in round mode, and supported on the positive cells   *)
 (* in sample mode).                                                         *)
 EXTENDS Synthetic, TraceLib
+
+CONSTANT Strict    \* TRUE: conditioning sets and weights must be the model's; FALSE: only "each group's histogram is an
+                   \* apportionment of the weights the code itself conditioned on" (rounding error below one per cell)
 VARIABLES tid, l
 tvars == <<vars, tid, l>>
 T == Traces[tid]
@@ -19,7 +22,7 @@ TraceStructs == [t \in 1..NTraces |->
 
 TraceInit == /\ tid \in 1..NTraces /\ l = 1 /\ InitWith(tid, Traces[tid].order)
 
-TrColumn == /\ IsEv("Column")
+TrColumn == /\ Strict /\ IsEv("Column")
             /\ NextColumn
             /\ col' = Ev.col /\ proj' = ToSet(Ev.proj)
 GroupWeights(g) ==
@@ -28,13 +31,18 @@ GroupWeights(g) ==
       gasg == [i \in 1..Len(pseq) |-> g[i]]
   IN  [v \in 1..S.sz[Ev.col] |-> m.v[[a \in ToSet(cseq) |-> IF a = Ev.col THEN v - 1
                                                            ELSE g[CHOOSE i \in 1..Len(pseq) : pseq[i] = a]]]]
-TrGroup == /\ IsEv("Group") /\ Ev.col = col /\ ToSet(Ev.proj) = proj
+TrGroup == /\ Strict /\ IsEv("Group") /\ Ev.col = col /\ ToSet(Ev.proj) = proj
            /\ Ev.exact
            /\ Ev.w = GroupWeights(Ev.g)
            /\ IF T.method = "round" THEN ApportionOK(Ev.w, Ev.n, Ev.out) ELSE SampleOK(Ev.w, Ev.n, Ev.out)
            /\ UNCHANGED vars
-TrDone == IsEv("Done") /\ k = Len(order) + 1 /\ UNCHANGED vars
-TraceNext == TrColumn \/ TrGroup \/ TrDone
+TrDone == Strict /\ IsEv("Done") /\ k = Len(order) + 1 /\ UNCHANGED vars
+LColumn == ~Strict /\ IsEv("Column") /\ UNCHANGED vars
+LGroup == /\ ~Strict /\ IsEv("Group")
+          /\ Ev.exact => (IF T.method = "round" THEN ApportionOK(Ev.w, Ev.n, Ev.out) ELSE SampleOK(Ev.w, Ev.n, Ev.out))
+          /\ UNCHANGED vars
+LDone == ~Strict /\ IsEv("Done") /\ UNCHANGED vars
+TraceNext == TrColumn \/ TrGroup \/ TrDone \/ LColumn \/ LGroup \/ LDone
 TraceSpec == TraceInit /\ [][TraceNext]_tvars
 Marker == Mark(tid, l)
 ASSUME InitMarks
